@@ -49,6 +49,15 @@ from easynetwork.serializers.wrapper.compressor import BZ2CompressorSerializer, 
 
 BIG_LIMIT = 1 << 20  # used by C01 for the "large" stream class
 
+# `debug=` option of every serializer (error_info on DeserializeError).  The factories keep the signature
+# make(limit, hostile); Entry.serializer(..., debug=...) sets this flag around the call, so that entries defined elsewhere with
+# the old signature keep working.  error_info must never change the TYPE of the exception that surfaces.
+_DEBUG = False
+
+
+def _D() -> dict:
+    return {"debug": _DEBUG}
+
 
 # ================================================================================================ restricted pickle
 class RestrictedUnpickler(pickle.Unpickler):
@@ -114,11 +123,11 @@ class RawAutoSep(AutoSeparatedPacketSerializer[bytes, bytes]):
 
     __slots__ = ()
 
-    def __init__(self, separator: bytes, *, limit: int | None = None) -> None:
+    def __init__(self, separator: bytes, *, limit: int | None = None, debug: bool = False) -> None:
         if limit is None:
-            super().__init__(separator)
+            super().__init__(separator, debug=debug)
         else:
-            super().__init__(separator, limit=limit)
+            super().__init__(separator, limit=limit, debug=debug)
 
     def serialize(self, packet: bytes) -> bytes:
         return bytes(packet)
@@ -150,11 +159,11 @@ class PickleFile(FileBasedPacketSerializer[Any, Any]):
 
     __slots__ = ("_protocol", "_unpickler_cls")
 
-    def __init__(self, *, protocol: int = 4, unpickler_cls: Any = RestrictedUnpickler, limit: int | None = None) -> None:
+    def __init__(self, *, protocol: int = 4, unpickler_cls: Any = RestrictedUnpickler, limit: int | None = None, debug: bool = False) -> None:
         if limit is None:
-            super().__init__(expected_load_error=Exception)
+            super().__init__(expected_load_error=Exception, debug=debug)
         else:
-            super().__init__(expected_load_error=Exception, limit=limit)
+            super().__init__(expected_load_error=Exception, limit=limit, debug=debug)
         self._protocol = protocol
         self._unpickler_cls = unpickler_cls
 
@@ -399,33 +408,38 @@ class Entry:
         else:
             self.kind = "oneshot"
 
-    # -- fresh objects
-    def serializer(self, limit: int | None = None, hostile: bool = False) -> Any:
-        return self.make(limit if self.has_limit else None, hostile)
+    # -- fresh objects (`debug` = the serializers' debug option, for every layer of the entry)
+    def serializer(self, limit: int | None = None, hostile: bool = False, debug: bool = False) -> Any:
+        global _DEBUG
+        saved, _DEBUG = _DEBUG, bool(debug)
+        try:
+            return self.make(limit if self.has_limit else None, hostile)
+        finally:
+            _DEBUG = saved
 
     def converter(self) -> Any:
         return self.conv() if self.conv is not None else None
 
-    def stream_protocol(self, limit: int | None = None, hostile: bool = False) -> Any:
+    def stream_protocol(self, limit: int | None = None, hostile: bool = False, debug: bool = False) -> Any:
         if self.kind == "oneshot":
             return None
-        return StreamProtocol(self.serializer(limit, hostile), self.converter())
+        return StreamProtocol(self.serializer(limit, hostile, debug), self.converter())
 
-    def buffered_protocol(self, limit: int | None = None, hostile: bool = False) -> Any:
+    def buffered_protocol(self, limit: int | None = None, hostile: bool = False, debug: bool = False) -> Any:
         if self.kind != "buffered":
             return None
-        return BufferedStreamProtocol(self.serializer(limit, hostile), self.converter())
+        return BufferedStreamProtocol(self.serializer(limit, hostile, debug), self.converter())
 
-    def datagram_protocol(self, limit: int | None = None, hostile: bool = False) -> Any:
-        return DatagramProtocol(self.serializer(limit, hostile), self.converter())
+    def datagram_protocol(self, limit: int | None = None, hostile: bool = False, debug: bool = False) -> Any:
+        return DatagramProtocol(self.serializer(limit, hostile, debug), self.converter())
 
-    def protocol(self, needs: str, limit: int | None = None, hostile: bool = False) -> Any:
+    def protocol(self, needs: str, limit: int | None = None, hostile: bool = False, debug: bool = False) -> Any:
         if needs == "stream":
-            return self.stream_protocol(limit, hostile)
+            return self.stream_protocol(limit, hostile, debug)
         if needs == "buffered":
-            return self.buffered_protocol(limit, hostile)
+            return self.buffered_protocol(limit, hostile, debug)
         if needs == "datagram":
-            return self.datagram_protocol(limit, hostile)
+            return self.datagram_protocol(limit, hostile, debug)
         raise ValueError(needs)
 
     # -- packets
@@ -550,8 +564,8 @@ def _line_entry(newline: str, keep_end: bool, encoding: str) -> Entry:
 
     def make(limit, hostile=False):
         if limit is None:
-            return StringLineSerializer(newline, encoding=encoding, keep_end=keep_end)
-        return StringLineSerializer(newline, encoding=encoding, keep_end=keep_end, limit=limit)
+            return StringLineSerializer(newline, encoding=encoding, keep_end=keep_end, **_D())
+        return StringLineSerializer(newline, encoding=encoding, keep_end=keep_end, limit=limit, **_D())
 
     def gen(rng, size="small", mode="stream"):
         if mode == "oneshot" and rng.random() < 0.1:
@@ -595,7 +609,7 @@ def _json_make(use_lines: bool, ensure_ascii: bool):
         kw: dict[str, Any] = {"use_lines": use_lines}
         if limit is not None:
             kw["limit"] = limit
-        return JSONSerializer(JSONEncoderConfig(ensure_ascii=ensure_ascii), **kw)
+        return JSONSerializer(JSONEncoderConfig(ensure_ascii=ensure_ascii), **kw, **_D())
 
     return make
 
@@ -662,7 +676,7 @@ def _struct_entry(fmt: str) -> Entry:
     prefix, fields = _struct_plan(fmt)
 
     def make(limit, hostile=False):
-        return StructSerializer(fmt)
+        return StructSerializer(fmt, **_D())
 
     def gen(rng, size="small", mode="stream"):
         return tuple(_struct_value(rng, prefix, code, cnt) for code, cnt in fields)
@@ -713,7 +727,7 @@ def _nt_entry(tag: str, cls: Any, formats: dict, endian: str, encoding: str | No
     prefix, plan = _struct_plan(fmt)
 
     def make(limit, hostile=False):
-        return NamedTupleStructSerializer(cls, dict(formats), endian, encoding, "strict", strip)
+        return NamedTupleStructSerializer(cls, dict(formats), endian, encoding, "strict", strip, **_D())
 
     def gen(rng, size="small", mode="stream"):
         vals = []
@@ -755,11 +769,11 @@ _add(_nt_entry("RecB/=/bytes/nostrip", RecB, _FB, "=", None, False))
 
 # ---------------------------------------------------------------- inner serializers for wrappers
 def _inner_json(hostile=False):
-    return JSONSerializer()
+    return JSONSerializer(**_D())
 
 
 def _inner_pickle(hostile=False):
-    return PickleSerializer(unpickler_cls=_unpickler(hostile))
+    return PickleSerializer(unpickler_cls=_unpickler(hostile), **_D())
 
 
 _INNER = {
@@ -777,7 +791,7 @@ def _b64_entry(alphabet: str, checksum: Any, ckname: str, sep: bytes, inner: str
         kw: dict[str, Any] = {"alphabet": alphabet, "checksum": checksum, "separator": sep}
         if limit is not None:
             kw["limit"] = limit
-        return Base64EncoderSerializer(mk_inner(hostile), **kw)
+        return Base64EncoderSerializer(mk_inner(hostile), **kw, **_D())
 
     return Entry(
         name=f"base64/{alphabet}/checksum={ckname}/sep={sep.hex()}/{inner}",
@@ -802,7 +816,7 @@ def _comp_entry(family: str, cls: Any, level: int, inner: str) -> Entry:
     mk_inner, gen, dom, _ = _INNER[inner]
 
     def make(limit, hostile=False):
-        return cls(mk_inner(hostile), compress_level=level)
+        return cls(mk_inner(hostile), compress_level=level, **_D())
 
     return Entry(name=f"{family}/level={level}/{inner}", family=family, make=make, gen=gen, domain=dom, hints=("blocks",))
 
@@ -820,7 +834,7 @@ def _pickle_entry(protocol: int, optimize: bool) -> Entry:
     with_bytes = protocol >= 3  # protocols < 3 pickle bytes through the _codecs.encode global
 
     def make(limit, hostile=False):
-        return PickleSerializer(PicklerConfig(protocol=protocol), unpickler_cls=_unpickler(hostile), pickler_optimize=optimize)
+        return PickleSerializer(PicklerConfig(protocol=protocol), unpickler_cls=_unpickler(hostile), pickler_optimize=optimize, **_D())
 
     def gen(rng, size="small", mode="oneshot"):
         return gen_py_top(rng, size, mode, with_bytes)
@@ -845,7 +859,7 @@ def _autosep_entry(sep: bytes) -> Entry:
     pool = bytes(b for b in b"abcxyz012 \x00\r\n\x7f\xfe" if b != sep[-1])
 
     def make(limit, hostile=False):
-        return RawAutoSep(sep, limit=limit)
+        return RawAutoSep(sep, limit=limit, **_D())
 
     def gen(rng, size="small", mode="stream"):
         n = rng.randint(40_000, 150_000) if size == "large" else _len(rng, 1)
@@ -871,7 +885,7 @@ for _sep in (b"\x00", b"ab", b"aab"):
 
 def _fixed_entry(size: int) -> Entry:
     def make(limit, hostile=False):
-        return RawFixed(size)
+        return RawFixed(size, **_D())
 
     def gen(rng, size_="small", mode="stream"):
         data = bytearray(rng.randbytes(size))
@@ -896,7 +910,7 @@ for _size in (1, 7, 64, 70_001):
 
 def _filebased_entry(protocol: int) -> Entry:
     def make(limit, hostile=False):
-        return PickleFile(protocol=protocol, unpickler_cls=_unpickler(hostile), limit=limit)
+        return PickleFile(protocol=protocol, unpickler_cls=_unpickler(hostile), limit=limit, **_D())
 
     def gen(rng, size="small", mode="stream"):
         return gen_py_top(rng, size, mode, True)
@@ -928,7 +942,7 @@ def _json_text(sent, mode):
 def _stapled_entries() -> None:
     # (incremental, incremental) -> StapledIncrementalPacketSerializer
     def mk1(limit, hostile=False):
-        return StapledPacketSerializer(JSONSerializer(JSONEncoderConfig(ensure_ascii=True)), JSONSerializer(**_limit_kw(limit)))
+        return StapledPacketSerializer(JSONSerializer(JSONEncoderConfig(ensure_ascii=True)), JSONSerializer(**_limit_kw(limit), **_D()))
 
     _add(Entry("stapled/incremental/json-ascii>json", "stapled", mk1, gen_json_top, "as json/*", sep=b"\n", has_limit=True, hints=("json",)))
 
@@ -936,13 +950,13 @@ def _stapled_entries() -> None:
     line_ascii = next(e for e in MATRIX if e.name == "line/LF/keep_end=0/ascii")
 
     def mk2(limit, hostile=False):
-        return StapledPacketSerializer(StringLineSerializer("LF", encoding="ascii"), StringLineSerializer("LF", encoding="utf-8", **_limit_kw(limit)))
+        return StapledPacketSerializer(StringLineSerializer("LF", encoding="ascii"), StringLineSerializer("LF", encoding="utf-8", **_limit_kw(limit), **_D()))
 
     _add(Entry("stapled/buffered/line-ascii>line-utf8", "stapled", mk2, line_ascii.gen, line_ascii.domain, sep=b"\n", has_limit=True))
 
     # cross-format: JSON lines are received as text lines
     def mk3(limit, hostile=False):
-        return StapledPacketSerializer(JSONSerializer(JSONEncoderConfig(ensure_ascii=True), use_lines=True), StringLineSerializer("LF", encoding="utf-8", **_limit_kw(limit)))
+        return StapledPacketSerializer(JSONSerializer(JSONEncoderConfig(ensure_ascii=True), use_lines=True), StringLineSerializer("LF", encoding="utf-8", **_limit_kw(limit), **_D()))
 
     def gen3(rng, size="small", mode="stream"):
         v = gen_json_top(rng, size, mode)
@@ -955,19 +969,19 @@ def _stapled_entries() -> None:
     # explicit classes: the Incremental class upgrades itself when the receiver is buffered, the Buffered class used directly
     def mk4(limit, hostile=False):
         return StapledIncrementalPacketSerializer(
-            Base64EncoderSerializer(JSONSerializer(), separator=b"|"), Base64EncoderSerializer(JSONSerializer(), separator=b"|", **_limit_kw(limit))
+            Base64EncoderSerializer(JSONSerializer(), separator=b"|"), Base64EncoderSerializer(JSONSerializer(**_D()), separator=b"|", **_limit_kw(limit), **_D())
         )
 
     _add(Entry("stapled/incremental-class/base64-json", "stapled", mk4, gen_json_top, "as json/*", sep=b"|", has_limit=True, hints=("b64",)))
 
     def mk5b(limit, hostile=False):
-        return StapledBufferedIncrementalPacketSerializer(ZlibCompressorSerializer(JSONSerializer(), compress_level=1), ZlibCompressorSerializer(JSONSerializer(), compress_level=9))
+        return StapledBufferedIncrementalPacketSerializer(ZlibCompressorSerializer(JSONSerializer(), compress_level=1), ZlibCompressorSerializer(JSONSerializer(**_D()), compress_level=9, **_D()))
 
     _add(Entry("stapled/buffered-class/zlib1>zlib9/json", "stapled", mk5b, gen_json_top, "as json/*", hints=("blocks",)))
 
     # (one-shot, one-shot) -> plain StapledPacketSerializer (datagram only)
     def mk6(limit, hostile=False):
-        return StapledPacketSerializer(PickleSerializer(PicklerConfig(protocol=4)), PickleSerializer(unpickler_cls=_unpickler(hostile)))
+        return StapledPacketSerializer(PickleSerializer(PicklerConfig(protocol=4)), PickleSerializer(unpickler_cls=_unpickler(hostile), **_D()))
 
     _add(Entry("stapled/oneshot/pickle4>pickle-restricted", "stapled", mk6, gen_py_top, "picklable without globals"))
 
@@ -988,16 +1002,16 @@ def _converter_entries() -> None:
     dom = "Person(name: str, age: int, tags: list[str]) dataclass, converted to a dict DTO"
 
     def mk_lines(limit, hostile=False):
-        return JSONSerializer(use_lines=True, **_limit_kw(limit))
+        return JSONSerializer(use_lines=True, **_limit_kw(limit), **_D())
 
     def mk_raw(limit, hostile=False):
-        return JSONSerializer(JSONEncoderConfig(ensure_ascii=False), use_lines=False, **_limit_kw(limit))
+        return JSONSerializer(JSONEncoderConfig(ensure_ascii=False), use_lines=False, **_limit_kw(limit), **_D())
 
     def mk_b64(limit, hostile=False):
-        return Base64EncoderSerializer(JSONSerializer(), checksum=True, **_limit_kw(limit))
+        return Base64EncoderSerializer(JSONSerializer(**_D()), checksum=True, **_limit_kw(limit), **_D())
 
     def mk_zlib(limit, hostile=False):
-        return ZlibCompressorSerializer(JSONSerializer(), compress_level=6)
+        return ZlibCompressorSerializer(JSONSerializer(**_D()), compress_level=6, **_D())
 
     _add(Entry("converter/person/json-lines", "converter", mk_lines, gen_person, dom, conv=PersonConverter, sep=b"\n", has_limit=True, hints=("json",)))
     _add(Entry("converter/person/json-raw", "converter", mk_raw, gen_person, dom, conv=PersonConverter, has_limit=True, hints=("json", "utf8")))
